@@ -2,15 +2,47 @@ pub mod arena;
 pub mod pool;
 pub mod proccap;
 pub mod procspec;
+pub mod prune;
+pub mod reclaim;
 pub mod sem;
 pub mod strings;
 
 use crate::Ctx;
 
+/// Re-runs exactly one recorded case: `nsworker replay --file <replay.json>`.
+fn replay(ctx: &mut Ctx) {
+    let path = ctx.opt("file").expect("--file").to_string();
+    let text = std::fs::read_to_string(&path).expect("replay file");
+    let rec: serde_json::Value = serde_json::from_str(&text).expect("replay json");
+    let rp = rec.get("replay").unwrap_or(&rec);
+    let engine = rp.get("engine").and_then(|v| v.as_str()).expect("engine in replay").to_string();
+    let idx = rp.get("idx").and_then(serde_json::Value::as_u64).expect("idx in replay");
+    ctx.engine = engine.clone();
+    ctx.seed = rp.get("seed").and_then(serde_json::Value::as_u64).unwrap_or(1);
+    ctx.shard = 0;
+    ctx.nshards = 1;
+    ctx.start = idx;
+    ctx.count = idx + 1;
+    if let Some(o) = rp.get("opts").and_then(|v| v.as_object()) {
+        for (k, v) in o {
+            let v = v.as_str().map_or_else(|| v.to_string(), str::to_string);
+            ctx.opts.insert(k.clone(), v);
+        }
+    }
+    if let Some(src) = rp.get("src").and_then(|v| v.as_str()) {
+        println!("--- source of the recorded case ---\n{src}");
+    }
+    assert_ne!(engine, "replay");
+    dispatch(ctx);
+}
+
 pub fn dispatch(ctx: &mut Ctx) {
     match ctx.engine.as_str() {
+        "replay" => replay(ctx),
         "sem" => sem::run(ctx),
         "gen" => sem::dump(ctx),
+        "reclaim" => reclaim::run(ctx),
+        "prune" => prune::run(ctx),
         "strings" => strings::run(ctx),
         "arena" => arena::run(ctx),
         "pool" => pool::run(ctx),
